@@ -4,7 +4,9 @@ import (
 	"fmt"
 	"math/rand/v2"
 	"net"
+	"os"
 	"testing"
+	"time"
 
 	"github.com/insomniacslk/dhcp/dhcpv6"
 	"verif/harness/gen4"
@@ -73,8 +75,9 @@ func caseRelay(r *mon.Rec, idx int) {
 	g := gen6.New(rng, isTyped)
 	g.Budget = 1000
 	g.NoV4 = true
-	r.Eval(1)
 	rp := replay{"relay", idx}
+	r.Current(rp)
+	r.Eval(1)
 	depth := 1 + rng.IntN(16)
 	if rng.IntN(3) == 0 {
 		depth = 1 + rng.IntN(3)
@@ -272,8 +275,9 @@ func caseBuilder(r *mon.Rec, idx int) {
 	g := gen6.New(rng, isTyped)
 	g.Budget = 1000
 	g.NoV4 = true
-	r.Eval(1)
 	rp := replay{"builder", idx}
+	r.Current(rp)
+	r.Eval(1)
 	mt := 1 + rng.IntN(13)
 	if rng.IntN(10) == 0 {
 		mt = rng.IntN(256)
@@ -402,6 +406,9 @@ func caseBuilder(r *mon.Rec, idx int) {
 func TestCheck(t *testing.T) {
 	r := mon.New("C16")
 	defer r.Flush()
+	if os.Getenv("VERIF_REPLAY") == "" {
+		r.Watchdog(60 * time.Second)
+	}
 	typed = v6util.TypedCodes()
 	var rp replay
 	if mon.ReplayCase(&rp) {
